@@ -24,7 +24,7 @@ def cA : ClassDef := ⟨"a", some "float", none, some "person", some "month", no
 def cB : ClassDef :=
   ⟨"b", some "float", some "5", some "person", some "month", some 736694, none, [(1, 2), (735964, 3)]⟩
 def params : ParamTree := [("rate", [⟨735599, some "3"⟩, ⟨733773, some "2"⟩])]
-def base : State := (baseSystem ["person", "household"] params [cA, cB]).getD ⟨⟨[]⟩, []⟩
+def base : State := (baseSystem ["person", "household"] params [cA, cB]).getD { heap := ⟨[]⟩, systems := [] }
 /-- a partial class for `update_variable`: one new dated formula, nothing else -/
 def updB : ClassDef := ⟨"b", none, none, none, none, none, none, [(736330, 4)]⟩
 def ops : List Op :=
@@ -80,6 +80,73 @@ theorem C14_base_calculations_unchanged (st : State) (ops : List Op)
   have e1 : varObs (run st ops).heap b = varObs st.heap b := congrArg SysObs.byName e
   rw [e, e1]
   exact ⟨rfl, rfl⟩
+
+/-! ## The YAML test runner's derivation -/
+
+namespace C14ex
+/-- an extension with a variable and a parameter of its own -/
+def ext1 : Ext := ⟨"x1", [⟨"town_allowance", some "float", none, some "household", some "month", none, none, [(1, 7)]⟩],
+  [("town", [⟨733773, some "100"⟩])]⟩
+/-- a reform that touches no parameter (it would share its baseline's tree) with an extension that
+    brings parameters; then the same extension alone, twice (the second time is a cache hit); then
+    the same extension after another reform -/
+def runnerOps : List Op :=
+  [.testRunner 0 [("r1", [.neutralize "a"])] [ext1], .testRunner 0 [] [ext1], .testRunner 0 [] [ext1],
+   .testRunner 0 [("r2", [.params [⟨"rate", 736330, none, some "9"⟩]])] [ext1]]
+end C14ex
+
+/-- **The test runner's derivation leaves the baseline untouched.**
+    `_get_tax_benefit_system(baseline, reforms, extensions)` (`Op.testRunner`: a `clone()` of the
+    baseline, the reforms stacked on it, each extension's variables added and its parameters merged
+    IN PLACE into the tree of the last system, memoised by (baseline, reform paths, extension set)).
+    (1) For every state and EVERY sequence of such derivations — any baselines, any reforms (whether
+    or not they modify parameters, so whether or not they share a tree), any extensions, including
+    derivations that raise half-way and cache hits — every object that existed before is the same
+    object afterwards, and every observation of every system that existed is unchanged; no
+    hypothesis on the history is needed, because a derivation never targets an existing system.
+    (2) After ANY history that modifies only derived systems, a further derivation from a baseline
+    `b` — with whatever key — starts from a `clone()` that is observationally equal to the baseline
+    as it was at the very beginning: it sees an unpolluted baseline. -/
+theorem C14_test_runner_derivation_untouched (st : State) :
+    (∀ ds : List (Nat × List (String × List Mod) × List Ext),
+      let st' := run st (ds.map fun d => Op.testRunner d.1 d.2.1 d.2.2)
+      (∀ i, i < st.heap.next → st'.heap.look i = st.heap.look i) ∧
+      (Closed st.heap → ∀ b, b < st.heap.next → sysObs st'.heap b = sysObs st.heap b)) ∧
+    (∀ ops : List Op, (∀ op ∈ ops, op.targetsDerived st.systems.length) → Closed st.heap →
+      ∀ b, SysWF st.heap b → ∀ h' N, cloneSys (run st ops).heap b = .ok (h', N) →
+        (∀ name, varObs h' N name = varObs st.heap b name) ∧
+        (∀ pn d, paramObs h' N pn d = paramObs st.heap b pn d)) := by
+  constructor
+  · intro ds
+    have hops : ∀ op ∈ ds.map (fun d => Op.testRunner d.1 d.2.1 d.2.2), op.targetsDerived st.systems.length := by
+      intro op hop
+      obtain ⟨d, _, rfl⟩ := List.mem_map.mp hop
+      trivial
+    obtain ⟨h1, _, h3⟩ := C14_base_untouched st _ hops
+    exact ⟨h1, h3⟩
+  · intro ops hops hC b hw h' N hcl
+    have hw0 := hw
+    obtain ⟨s, _, _, hs, _⟩ := hw0
+    have hb : b < st.heap.next := lt_next_of_look _ (look_of_getSys hs)
+    obtain ⟨hA, _, _⟩ := C14_base_untouched st ops hops
+    have hw' : SysWF (run st ops).heap b := sysWF_agree hA hC hw
+    obtain ⟨_, hv, _, hp, _⟩ := cloneSys_spec hcl hw'
+    refine ⟨fun name => ?_, fun pn d => ?_⟩
+    · rw [hv name]; exact varObs_agree hA hC hb name
+    · rw [hp pn d]; exact paramObs_agree hA hC hb pn d
+
+/-- the derivations really happen: three systems are derived (the third request is a cache hit), the
+    extension's parameter is read in each of them — and not in the baseline, which a second
+    derivation could otherwise not extend again (`add_child` would raise) -/
+example :
+    let st' := run C14ex.base C14ex.runnerOps
+    st'.systems.length = 4 ∧ st'.memo.length = 3 ∧
+    (st'.systems.map fun X => paramObs st'.heap X "town" 736400) = [none, some "100", some "100", some "100"] ∧
+    (st'.systems.map fun X => paramObs st'.heap X "rate" 736400) = [some "3", some "3", some "3", some "9"] ∧
+    (st'.systems.map fun X => (varObs st'.heap X "a").map (·.isNeutralized))
+      = [some false, some true, some false, some false] ∧
+    (st'.systems.map fun X => (varObs st'.heap X "town_allowance").isSome) = [false, true, true, true] := by
+  decide +kernel
 
 /-! ## The derived system is the original plus the declared changes -/
 
@@ -472,6 +539,7 @@ end OFCore
 /-! axiom audit (⊆ propext, Classical.choice, Quot.sound) -/
 #print axioms OFCore.C14_base_untouched
 #print axioms OFCore.C14_base_calculations_unchanged
+#print axioms OFCore.C14_test_runner_derivation_untouched
 #print axioms OFCore.C14_clone_is_copy
 #print axioms OFCore.C14_modification_local
 #print axioms OFCore.C14_derived_is_base_plus_changes
